@@ -45,6 +45,14 @@ if rc_with == 0 or rc_without != 0:
     print("NOT CONFIRMED\n--- with:\n", out_with[-1500:], "\n--- without:\n", out_without[-1500:])
 res = {"demo_fails_with": rc_with != 0, "demo_passes_without": rc_without == 0}
 dst = os.path.join("/verif/seeded", name)
+if os.path.exists(os.path.join(dst, "patch.diff")) and open(os.path.join(dst, "patch.diff")).read() != open(patch).read() \
+        and not os.path.exists(os.path.join(dst, "patch.orig.diff")):
+    # another change was stored under this name earlier (two agents had the same idea): keep both
+    k = 2
+    while os.path.exists("%s-%d" % (dst, k)):
+        k += 1
+    dst = "%s-%d" % (dst, k)
+    print("name taken, storing as", os.path.basename(dst))
 os.makedirs(dst, exist_ok=True)
 for f in glob.glob(os.path.join(mdir, "*")):
     if os.path.isfile(f):
